@@ -37,7 +37,10 @@ FIRST_TRY = {'C01': True, 'C02': True, 'C03': False, 'C04': True, 'C05': False, 
              'C18k': False, 'C19k': True, 'C20k': False,
              'C01m': True, 'C02m': False, 'C03m': False, 'C04m': True, 'C05m': True, 'C06m': True, 'C07m': True, 'C08m': True, 'C09m': True,
              'C10m': True, 'C11m': True, 'C12m': True, 'C13m': True, 'C14m': True, 'C15m': False, 'C16m': True, 'C17m': False,
-             'C18m': False, 'C19m': False, 'C20m': True}
+             'C18m': False, 'C19m': False, 'C20m': True,
+             'C01n': False, 'C02n': False, 'C03n': True, 'C04n': False, 'C05n': True, 'C06n': True, 'C07n': True, 'C08n': True, 'C09n': False,
+             'C10n': False, 'C11n': False, 'C12n': True, 'C13n': False, 'C14n': False, 'C15n': False, 'C16n': True, 'C17n': True,
+             'C18n': False, 'C19n': True, 'C20n': False}
 REJECTED = {
     'C18h': 'superseded: caught by C18 (send:Updates:over) until repair e4f0c24 moved the counting to write time; since then the '
             'change is consistent with the statistic and no longer a C18 violation',
@@ -126,6 +129,17 @@ STRENGTHEN = {
     'C17m': 'one attribute may now hold communities of several kinds: Hypothesis lists of 2-6 kinds and every ordered pair of kinds x 3 x 3 fixed values (encapsulation 8 / 9 / 2 among them)',
     'C18m': 'new event: one REST request announcing 1200 prefixes (more than a 4096-octet UPDATE holds). On the unchanged tree this wrote a 6050-octet UPDATE - defect F062 (C08, oversize kind), fixed e69c0e1',
     'C19m': 'histories may run on a session without the 4-octet-AS capability, and a REST announcement may carry an AS above 65535 (ann-big-as): the agent may refuse it, and the sent counter must move exactly when the Adj-RIB-Out it reports changed (table read before and after - no model needed)',
+    'C01n': 'caught by C04 and C10 from the start; the C01 alphabet now has a well-formed UPDATE of exactly 4096 octets',
+    'C02n': 'not strengthened: caught by C12 (second connection while one is open) and C13 (stop leaves a connection open), which is where an adopted-in-Idle connection shows; C02 itself still passes because the session does come up within the bound',
+    'C04n': 'new violation kind XX: a header with a corrupt marker AND a wrong length / type (judged in the order of the reference deframer: marker first)',
+    'C09n': 'caught by C07 from the start; the IPv6 next hop of C09 is now any IPv6 address (values below 2^32 included) instead of global-looking ones only',
+    'C10n': 'caught by C04 from the start; C10 now also cuts the hostile message behind its header and lets the segment that completes it end 1..18 octets into the next header',
+    'C11n': 'new shards text-values: text-like values (runs of letters / host names followed by another character) of lengths 8..4000 through every decoder, measuring processor time as well because the line-event budget cannot see a backtracking regular expression inside C code (3 s per call counts as unbounded; typical < 0.05 s)',
+    'C13n': 'quick-restart variant: the manual start that follows the stop must call connectTCP at that instant, also while the connectionLost of the stopped connection is still on its way',
+    'C14n': 'not strengthened: a repeated capability is C15 ground (caught there: open-capabilities not compositional)',
+    'C15n': 'not strengthened: caught by C14 (Optional Parameters Length padded to 255)',
+    'C18n': 'twelve shapes of unencodable route-refresh requests (res 300 / -1 / text / null, float or oversized afi / safi, missing keys)',
+    'C20n': 'histories may start on a directory that already holds a log in the format of an earlier release (Python-list lines): numbering continues after it',
     'C16c': 'send cases now run with [bgp] rib on or off and with 0-2 earlier announcements on the same session whose prefixes the checked request may withdraw or re-announce (a withdraw list mixing announced and never-announced prefixes is the trigger)',
     'C19c': 'new operation: one peer UPDATE that carries IPv4 withdrawn routes together with a flowspec / VPNv4 MP_REACH or MP_UNREACH attribute; both parts must be applied (patch rebased onto the current tree because a later fix touched the same lines; original kept as patch.orig.diff)',
     'C20c': 'the peer address as configured became a dimension (IPv4, lower-case IPv6, upper-case IPv6) and a handler callback that raises is now a violation (event not logged) instead of a harness error',
@@ -156,7 +170,7 @@ def main():
     with open(os.path.join(HERE, 'seeded', 'INDEX.md'), 'w') as f:
         f.write('# Seeded changes (written by fresh sub-agents that saw only the property text)\n\n'
                 'Round 1: one change per property (C01..C20). Round 2 (ids ending in b): a second, different change for all twenty\n'
-                'properties. Rounds 3 to 11 (ids ending in c / d, e, f, g, h, i, j, k and m): further ones, the sub-agent being told what the earlier rounds had changed.\n'
+                'properties. Rounds 3 to 12 (ids ending in c / d, e, f, g, h, i, j, k, m and n): further ones, the sub-agent being told what the earlier rounds had changed.\n'
                 'Each directory holds patch.diff, the agent\'s demo.py, meta.json (incl. what the verifier ran) and\n'
                 'result.txt; `tools/try_seed.sh <id>` re-runs the confirmation on scratch copies of /repo.\n\n'
                 '| id | change | needs | caught on first run | final check result |\n|---|---|---|---|---|\n')
